@@ -18,9 +18,12 @@ echo "== demo with the change"
 (cd demo && cp ../Cargo.lock . 2>/dev/null; cargo run --offline $feat -q > /tmp/seed/$id.demo_with.txt 2>&1; echo "exit=$?" >> /tmp/seed/$id.demo_with.txt)
 tail -3 /tmp/seed/$id.demo_with.txt
 echo "== demo without the change"
-git stash -q
+# (git stash is shared by all worktrees of one repository: never use it here)
+git apply -R $out/patch.diff
+find src -name '*.rs' -newer $out/patch.diff -exec touch {} + 2>/dev/null; touch src/lib.rs
 (cd demo && cargo run --offline $feat -q > /tmp/seed/$id.demo_without.txt 2>&1; echo "exit=$?" >> /tmp/seed/$id.demo_without.txt)
-git stash pop -q
+git apply $out/patch.diff
+touch src/lib.rs
 tail -3 /tmp/seed/$id.demo_without.txt
 rm -rf $out/demo; mkdir -p $out/demo
 rsync -a --exclude target $wt/demo/ $out/demo/
